@@ -271,7 +271,7 @@ func ruleGCCountdown(c *Ctx) {
 	c.inst(1)
 	isField := func(fa *ssa.FieldAddr, name string) bool {
 		f := fieldOfAddr(fa)
-		return f != nil && f.Name() == name && f.Pkg() != nil && f.Pkg().Name() == "server" && fieldOwner(p, f) == "?"
+		return f != nil && f.Name() == name && f.Pkg() != nil && f.Pkg().Name() == "server" && f != p.Field("server.Subscription."+name)
 	}
 	minus := func(v ssa.Value) (string, bool) {
 		b, ok := v.(*ssa.BinOp)
@@ -283,7 +283,7 @@ func ruleGCCountdown(c *Ctx) {
 		}
 		return "diff", true
 	}
-	sp := &Spec{}
+	sp := &Spec{InlineHelpers: true}
 	sp.Classify = func(t *Tracer, fr *Frame, in ssa.Instruction) []Ev {
 		st, ok := in.(*ssa.Store)
 		if !ok {
